@@ -344,8 +344,104 @@ def s3_calculator(ctx):
             ctx.violation('S3 cassette without calculator did not simply store the recording', {})
 
 
+def blackbox_histories(ctx):
+    """No hook at all: a recorder built with random_seed=s; its decisions for a fractional rate must follow the single stream
+    Random(s) (one draw per decision, keep iff draw <= rate), whichever thread each operation runs on - a fresh thread per request,
+    a pool of long-lived workers, or the main thread. Operations run strictly one after the other."""
+    import threading
+    from playback.tape_recorder import TapeRecorder
+    n = ctx.budget(120, 3000)
+    for mode in ('main', 'thread_per_operation', 'worker_pool'):
+        for rate in (0.5, 0.2):
+            seed = ctx.seed * 1000 + int(rate * 100) + 20240917
+            model = random.Random(seed)
+            got_seq, exp_seq = [], []
+            with open_box('memory') as box:
+                spy = SpyCassette(box.cassette)
+                rec = TapeRecorder(spy, random_seed=seed)
+                rec.enable_recording()
+                out = {}
+
+                def one(i):
+                    res = fr.execute(content_prog(0, i), {}, rate=rate, recorder=rec, spy=spy, box=box, with_twin=False)
+                    out[i] = observe(res)
+                pool = None
+                if mode == 'worker_pool':
+                    import queue
+                    qs = [queue.Queue() for _ in range(3)]
+                    done = threading.Event()
+
+                    def serve(q):
+                        while True:
+                            i = q.get()
+                            if i is None:
+                                return
+                            one(i)
+                            done.set()
+                    pool = [threading.Thread(target=serve, args=(q,)) for q in qs]
+                    for t in pool:
+                        t.start()
+                for i in range(n):
+                    if mode == 'main':
+                        one(i)
+                    elif mode == 'thread_per_operation':
+                        t = threading.Thread(target=one, args=(i,))
+                        t.start()
+                        t.join()
+                    else:
+                        done.clear()
+                        qs[i % 3].put(i)
+                        done.wait(60)
+                    got_seq.append(out.get(i))
+                    exp_seq.append('save' if model.random() <= rate else 'abort')
+                    ctx.case(('blackbox', mode, rate, i))
+                    ctx.count('blackbox_decisions')
+                if pool:
+                    for q in qs:
+                        q.put(None)
+                    for t in pool:
+                        t.join()
+            if got_seq != exp_seq:
+                i = next(i for i, (a, b) in enumerate(zip(got_seq, exp_seq)) if a != b)
+                ctx.violation('decisions of a seeded recorder do not follow Random(seed) when operations run on %s' % mode.replace('_', ' '),
+                              {'mode': mode, 'rate': rate, 'seed': seed, 'first_difference': i, 'got': got_seq[i], 'expected': exp_seq[i],
+                               'kept': got_seq.count('save'), 'of': n})
+
+
+def s3_lookups_between_saves(ctx):
+    """Storage-level sampling is reproducible from the cassette's own seed: the decisions of a save history must not depend on the
+    lookups (ordered or random order) the same long-lived cassette serves in between."""
+    import datetime as dt
+    seqs = {}
+    for variant in ('no_lookups', 'ordered_lookups', 'random_lookups'):
+        fake = FakeS3()
+        with fake.installed():
+            fake.now = dt.datetime(2024, 3, 10, 12, 0, 0)
+            c = fake.cassette('w', key_prefix='s', read_only=False, sampling_calculator=lambda category, size, recording: 0.5)
+            seq = []
+            for i in range(ctx.budget(80, 600)):
+                n0 = len(fake.log)
+                rec = c.create_new_recording('Cat')
+                rec.set_data('k', i)
+                c.save_recording(rec)
+                seq.append(len(fake.log) > n0)
+                if variant != 'no_lookups' and i % 3 == 2:
+                    list(c.iter_recording_ids('Cat', start_date=dt.datetime(2024, 3, 8), limit=4, random_results=variant == 'random_lookups'))
+                    ctx.count('s3_lookups_between_saves')
+                ctx.case(('s3lookups', variant, i))
+            seqs[variant] = seq
+    for variant in ('ordered_lookups', 'random_lookups'):
+        if seqs[variant] != seqs['no_lookups']:
+            ctx.violation('S3 storage-level sampling decisions changed because the cassette served %s between the saves' % variant.replace('_', ' '),
+                          {'first_difference': next(i for i, (a, b) in enumerate(zip(seqs[variant], seqs['no_lookups'])) if a != b),
+                           'kept': sum(seqs[variant]), 'kept_without_lookups': sum(seqs['no_lookups'])})
+
+
 def run(ctx):
     from playback.tape_recorder import TapeRecorder
+    if ctx.shard == 0:
+        blackbox_histories(ctx)          # needs no access to internals: runs before the parts that install a draw-logging RNG
+        s3_lookups_between_saves(ctx)
     env.anchor(TapeRecorder, '_should_sample_active_recording')
     from playback.tape_cassettes.in_memory.in_memory_tape_cassette import InMemoryTapeCassette
     env.anchor(TapeRecorder(InMemoryTapeCassette()), '_random')      # the draw-logging RNG is installed under this name
